@@ -314,6 +314,26 @@ def main(n: int, c: bool):
         gate.global_rz(0.25 + spec.get_float_constant(constant_id="origin"))
     f0(2.0, 1.0 * spec.get_int_constant(constant_id="zero"))
 """,
+    # one device function played forward and reversed with the SAME compile-time constant arguments (folded when compiled with a spec:
+    # a memo of folded paths must tell forward from reversed, one tone selection from another, one argument order from another)
+    """
+@move
+def main(n: int, c: bool):
+    f0 = schedule.device_fn(k0, [0, 1], [0])
+    g0 = schedule.device_fn(k0, [1, 0], [0])
+    f0(1.0, 2.0)
+    gate.global_rz(0.5)
+    schedule.reverse(f0)(1.0, 2.0)
+    gate.global_rz(0.25)
+    g0(1.0, 2.0)
+    f0(1.0, 2.0)
+    schedule.reverse(g0)(1.0, 2.0)
+    schedule.reverse(schedule.reverse(f0))(1.0, 2.0)
+    if c:
+        f0(b=2.0, a=1.0)
+    f0(2.0, 1.0)
+    schedule.reverse(f0)(2.0, 1.0)
+""",
 ]
 
 
